@@ -12,6 +12,7 @@ import (
 	"bytes"
 	"compress/gzip"
 	"compress/zlib"
+	"context"
 	"encoding/json"
 	"flag"
 	"fmt"
@@ -89,6 +90,98 @@ func mkService(root string, n int, dynamic bool) *restful.WebService {
 	return ws
 }
 
+// ask is one request of the C12 load together with what the answer must be: wantRoute/wantBody are the
+// marker header and the body of the one route that has to answer ("" wantRoute: only the status counts).
+type ask struct {
+	method, path string
+	header       [][2]string
+	body         string
+	wantRoute    string
+	wantBody     string
+}
+
+func (a ask) request() *http.Request {
+	var body io.Reader
+	if a.body != "" {
+		body = strings.NewReader(a.body)
+	}
+	req := httptest.NewRequest(a.method, a.path, body)
+	for _, h := range a.header {
+		req.Header.Set(h[0], h[1])
+	}
+	return req
+}
+
+func (a ask) String() string {
+	s := a.method + " " + a.path
+	for _, h := range a.header {
+		s += fmt.Sprintf(" [%s: %s]", h[0], h[1])
+	}
+	return s
+}
+
+// marked answers with its marker in X-Route and the id path parameter as the body.
+func marked(marker string) restful.RouteFunction {
+	return func(req *restful.Request, resp *restful.Response) {
+		resp.AddHeader("X-Route", marker)
+		resp.Write([]byte(req.PathParameter("id")))
+	}
+}
+
+func apiVersion(accepted ...string) restful.RouteSelectionConditionFunction {
+	return func(r *http.Request) bool {
+		v := r.Header.Get("X-Api-Version")
+		for _, a := range accepted {
+			if v == a {
+				return true
+			}
+		}
+		return false
+	}
+}
+
+// mkNegotiated builds a dynamic service whose routes come in groups of SIBLINGS: one method and one
+// path, told apart only by what they produce, by what they consume, or by an If condition (content
+// negotiation by route, versioning by condition).  These routes are never changed by the load; the
+// mutators only ADD further siblings to the groups.
+func mkNegotiated(root string, groups int) *restful.WebService {
+	ws := new(restful.WebService).Path(root)
+	ws.SetDynamicRoutes(true)
+	for g := 0; g < groups; g++ {
+		p := fmt.Sprintf("/g%d/{id}", g)
+		tag := fmt.Sprintf("%s#g%d:", root, g)
+		ws.Route(ws.GET(p).Produces("application/json").If(apiVersion("", "1")).To(marked(tag + "json")))
+		ws.Route(ws.GET(p).Produces("application/xml").To(marked(tag + "xml")))
+		ws.Route(ws.GET(p).Produces("application/json").If(apiVersion("2")).To(marked(tag + "json-v2")))
+		ws.Route(ws.POST(p).Consumes("application/json").To(marked(tag + "takes-json")))
+		ws.Route(ws.POST(p).Consumes("application/xml").To(marked(tag + "takes-xml")))
+	}
+	return ws
+}
+
+const negotiatedKinds = 5
+
+// negotiatedAsk is the request that only sibling `kind` of group g may answer.
+func negotiatedAsk(root string, g, kind int, id string) ask {
+	a := ask{method: "GET", path: fmt.Sprintf("%s/g%d/%s", root, g, id), wantBody: id}
+	tag := fmt.Sprintf("%s#g%d:", root, g)
+	switch kind {
+	case 0:
+		a.header, a.wantRoute = [][2]string{{"Accept", "application/json"}}, tag+"json"
+	case 1:
+		a.header, a.wantRoute = [][2]string{{"Accept", "application/xml"}}, tag+"xml"
+	case 2:
+		a.header, a.wantRoute = [][2]string{{"Accept", "application/json"}, {"X-Api-Version", "2"}}, tag+"json-v2"
+	case 3:
+		a.method, a.body = "POST", "{}"
+		a.header, a.wantRoute = [][2]string{{"Content-Type", "application/json"}}, tag+"takes-json"
+	default:
+		a.method, a.body = "POST", "<a/>"
+		a.header, a.wantRoute = [][2]string{{"Content-Type", "application/xml"}}, tag+"takes-xml"
+	}
+	return a
+}
+
 // stressC12: serving goroutines × goroutines that Add/Remove services and Route/RemoveRoute on a
 // dynamic service.  Stable services must always be answered 200 by the right route with the right
 // parameter; changing ones 200 or 404 (a registration state that existed during the request).
@@ -134,7 +227,7 @@ func stressC12(d time.Duration, seed uint64) result {
 	var bad atomic.Value
 	fail := func(what, detail string) { bad.CompareAndSwap(nil, [2]string{what, detail}) }
 	for round := 0; time.Now().Before(deadline) && bad.Load() == nil; round++ {
-		for _, router := range []string{"curly", "jsr"} {
+		for ri, router := range []string{"curly", "jsr"} {
 			c := restful.NewContainer()
 			if router == "jsr" {
 				c.Router(restful.RouterJSR311{})
@@ -151,8 +244,16 @@ func stressC12(d time.Duration, seed uint64) result {
 				}
 				return true
 			}).To(func(req *restful.Request, resp *restful.Response) { resp.Write([]byte("c")) }))
+			// a route whose parameter has a regular expression: the serving goroutines evaluate expressions
+			// all the time while the mutators keep introducing expressions nobody has seen before
+			stable.Route(stable.GET("/n/{id:[0-9]+}").To(marked("/stable#num")))
+			// sibling routes (same method and path, told apart by Produces / Consumes / If) that nobody
+			// changes; the mutators add further siblings next to them
+			const negGroups = 3
+			neg := mkNegotiated("/neg", negGroups)
 			c.Add(stable)
 			c.Add(dyn)
+			c.Add(neg)
 			// the OPTIONS filter walks the registered services and their routes on its own
 			// (computeAllowedMethods) after dispatch has let go of the container's lock
 			c.Filter(c.OPTIONSFilter)
@@ -163,8 +264,10 @@ func stressC12(d time.Duration, seed uint64) result {
 				wg.Add(1)
 				go func(m int) {
 					defer wg.Done()
-					r := rng.New(seed + uint64(round*10+m))
+					// Fork: streams of neighbouring seeds would be the same stream shifted by one draw
+					r := rng.New(seed).Fork(uint64(round*64 + ri*8 + m))
 					tmpRoot := fmt.Sprintf("/tmp%d", m)
+					siblingsAdded := 0
 					for i := 0; ; i++ {
 						select {
 						case <-stop:
@@ -175,8 +278,9 @@ func stressC12(d time.Duration, seed uint64) result {
 						// else touches this root / this path, so the answer is determined (a request that
 						// starts after Add/Route returned must see it, one that starts after
 						// Remove/RemoveRoute returned must not)
-						probe := func(path string, want int, after string) {
+						probeAsk := func(a ask, want int, after string) {
 							rec := httptest.NewRecorder()
+							entry := "Dispatch"
 							func() {
 								defer func() {
 									if p := recover(); p != nil {
@@ -184,27 +288,100 @@ func stressC12(d time.Duration, seed uint64) result {
 									}
 								}()
 								if r.Chance(1, 2) {
-									c.ServeHTTP(rec, httptest.NewRequest("GET", path, nil))
+									entry = "ServeHTTP"
+									c.ServeHTTP(rec, a.request())
 								} else {
-									c.Dispatch(rec, httptest.NewRequest("GET", path, nil))
+									c.Dispatch(rec, a.request())
 								}
 							}()
 							count("probe-after-" + after)
 							if rec.Code != want {
 								fail("a request issued after "+after+" had returned was answered according to a registration state that no longer (or never) existed",
-									fmt.Sprintf("GET %s router=%s: status %d, want %d", path, router, rec.Code, want))
+									fmt.Sprintf("%s router=%s entry=%s: status %d, want %d", a, router, entry, rec.Code, want))
+								return
+							}
+							if want == 200 && a.wantRoute != "" && (rec.Header().Get("X-Route") != a.wantRoute || rec.Body.String() != a.wantBody) {
+								fail("a request issued after "+after+" had returned was not answered by the route registered for it",
+									fmt.Sprintf("%s router=%s entry=%s: answered by route %q body %q, want route %q body %q", a, router, entry, rec.Header().Get("X-Route"), rec.Body.String(), a.wantRoute, a.wantBody))
 							}
 						}
-						switch r.Intn(5) {
+						probe := func(path string, want int, after string) {
+							probeAsk(ask{method: "GET", path: path}, want, after)
+						}
+						// the untouched siblings of a group, asked by the goroutine that has just added a route
+						// next to them: each must still answer its own kind of request
+						probeSiblings := func(g int, after string) {
+							for kind := 0; kind < negotiatedKinds; kind++ {
+								a := negotiatedAsk("/neg", g, kind, fmt.Sprintf("p%d", r.Intn(100)))
+								rec := httptest.NewRecorder()
+								entry := "Dispatch"
+								func() {
+									defer func() {
+										if p := recover(); p != nil {
+											fail("panic while serving during registration changes", fmt.Sprint(p))
+										}
+									}()
+									if r.Chance(1, 2) {
+										entry = "ServeHTTP"
+										c.ServeHTTP(rec, a.request())
+									} else {
+										c.Dispatch(rec, a.request())
+									}
+								}()
+								count("probe-untouched-sibling")
+								if rec.Code != 200 || rec.Header().Get("X-Route") != a.wantRoute || rec.Body.String() != a.wantBody {
+									fail("a request to a route that is not being changed was not answered as if nothing were changing: "+after+" (same method and path) the route no longer answers",
+										fmt.Sprintf("%s router=%s entry=%s: status %d route %q body %q, want 200 route %q body %q", a, router, entry, rec.Code, rec.Header().Get("X-Route"), rec.Body.String(), a.wantRoute, a.wantBody))
+									return
+								}
+							}
+						}
+						// an expression text no goroutine has evaluated before
+						fresh := func(i int) string { return fmt.Sprintf("%sr%dm%di%d", router, round, m, i) }
+						switch r.Intn(6) {
 						case 0:
-							ws := mkService(tmpRoot, 1, true)
+							// a service comes and goes; in two of three rounds its root path or its route has a
+							// parameter with a regular expression whose text is new (never evaluated before)
+							var ws *restful.WebService
+							var a ask
+							switch r.Intn(3) {
+							case 0:
+								ws = mkService(tmpRoot, 1, true)
+								a = ask{method: "GET", path: tmpRoot + "/r0/7", wantRoute: tmpRoot + "#0", wantBody: "7"}
+							case 1:
+								root := fmt.Sprintf("%s/{ver:v[0-9]+(?:x%s)?}", tmpRoot, fresh(i))
+								ws = new(restful.WebService).Path(root)
+								ws.SetDynamicRoutes(true)
+								ws.Route(ws.GET("/r0/{id}").To(marked(tmpRoot + "#ver")))
+								a = ask{method: "GET", path: tmpRoot + "/v3/r0/7", wantRoute: tmpRoot + "#ver", wantBody: "7"}
+								count("Add:fresh-expression-in-root-path")
+							default:
+								ws = new(restful.WebService).Path(tmpRoot)
+								ws.SetDynamicRoutes(true)
+								ws.Route(ws.GET(fmt.Sprintf("/{id:[0-9]+(?:x%s)?}/leaf", fresh(i))).To(marked(tmpRoot + "#leaf")))
+								a = ask{method: "GET", path: tmpRoot + "/12/leaf", wantRoute: tmpRoot + "#leaf", wantBody: "12"}
+								count("Add:fresh-expression-in-route")
+							}
 							c.Add(ws)
 							count("Add")
-							probe(tmpRoot+"/r0/7", 200, "Add")
+							probeAsk(a, 200, "Add")
 							c.Remove(ws)
 							count("Remove")
-							probe(tmpRoot+"/r0/7", 404, "Remove")
+							probeAsk(a, 404, "Remove")
 						case 1:
+							if r.Chance(1, 2) {
+								// a dynamic route whose parameter has a regular expression with a new text
+								p := fmt.Sprintf("/q%d/{id:[a-z0-9]+(?:x%s)?}", m, fresh(i))
+								a := ask{method: "GET", path: fmt.Sprintf("/dyn/q%d/k%d", m, i%10), wantRoute: "/dyn#q", wantBody: fmt.Sprintf("k%d", i%10)}
+								dyn.Route(dyn.GET(p).To(marked("/dyn#q")))
+								count("Route")
+								count("Route:fresh-expression")
+								probeAsk(a, 200, "Route")
+								dyn.RemoveRoute("/dyn"+p, "GET")
+								count("RemoveRoute")
+								probeAsk(a, 404, "RemoveRoute")
+								break
+							}
 							p := fmt.Sprintf("/x%d_%d", m, i%3)
 							dyn.Route(dyn.GET(p).To(func(req *restful.Request, resp *restful.Response) { resp.Write([]byte("x")) }))
 							count("Route")
@@ -212,16 +389,53 @@ func stressC12(d time.Duration, seed uint64) result {
 							dyn.RemoveRoute("/dyn"+p, "GET")
 							count("RemoveRoute")
 							probe("/dyn"+p, 404, "RemoveRoute")
+						case 5:
+							// a further sibling next to routes that stay: same method and path as theirs, its own
+							// media type (or its own condition).  RemoveRoute(path, method) cannot take one sibling
+							// away without the others, so the added ones stay for the rest of the round (bounded).
+							g := r.Intn(negGroups)
+							if siblingsAdded >= 8 {
+								probeSiblings(g, "while nothing was added")
+								break
+							}
+							siblingsAdded++
+							p := fmt.Sprintf("/g%d/{id}", g)
+							own := fmt.Sprintf("m%dn%d", m, siblingsAdded)
+							a := ask{method: "GET", path: fmt.Sprintf("/neg/g%d/s%d", g, i%10), wantRoute: "/neg#" + own, wantBody: fmt.Sprintf("s%d", i%10)}
+							var after string
+							switch r.Intn(3) {
+							case 0:
+								mt := "application/vnd." + own + "+json"
+								neg.Route(neg.GET(p).Produces(mt).To(marked("/neg#" + own)))
+								a.header = [][2]string{{"Accept", mt}}
+								after = "after Route added a sibling that differs in Produces"
+							case 1:
+								neg.Route(neg.GET(p).Produces("application/json").If(apiVersion(own)).To(marked("/neg#" + own)))
+								a.header = [][2]string{{"Accept", "application/json"}, {"X-Api-Version", own}}
+								after = "after Route added a sibling that differs in its If condition"
+							default:
+								mt := "application/vnd." + own + "+json"
+								neg.Route(neg.POST(p).Consumes(mt).To(marked("/neg#" + own)))
+								a.method, a.body = "POST", "{}"
+								a.header = [][2]string{{"Content-Type", mt}}
+								after = "after Route added a sibling that differs in Consumes"
+							}
+							count("Route-sibling-next-to-untouched-routes")
+							probeAsk(a, 200, "Route")
+							probeSiblings(g, after)
 						case 2:
 							// two routes for one method and path (they differ in what they produce) and a third one
 							// behind them: RemoveRoute(path, method) removes both and only them
 							p := fmt.Sprintf("/tw%d_%d", m, i%2)
 							x := func(req *restful.Request, resp *restful.Response) { resp.Write([]byte("x")) }
-							dyn.Route(dyn.GET(p).Produces("application/json").To(x))
-							dyn.Route(dyn.GET(p).Produces("application/xml").To(x))
+							dyn.Route(dyn.GET(p).Produces("application/json").To(marked("/dyn#tw-json")))
+							dyn.Route(dyn.GET(p).Produces("application/xml").To(marked("/dyn#tw-xml")))
 							dyn.Route(dyn.GET(p + "z").To(x))
 							count("Route-twins")
 							probe("/dyn"+p, 200, "Route")
+							// each twin answers the requests for what it produces
+							probeAsk(ask{method: "GET", path: "/dyn" + p, header: [][2]string{{"Accept", "application/json"}}, wantRoute: "/dyn#tw-json"}, 200, "Route")
+							probeAsk(ask{method: "GET", path: "/dyn" + p, header: [][2]string{{"Accept", "application/xml"}}, wantRoute: "/dyn#tw-xml"}, 200, "Route")
 							func() {
 								defer func() {
 									if pv := recover(); pv != nil {
@@ -259,7 +473,7 @@ func stressC12(d time.Duration, seed uint64) result {
 				wg.Add(1)
 				go func(s int) {
 					defer wg.Done()
-					r := rng.New(seed*31 + uint64(s))
+					r := rng.New(seed * 31).Fork(uint64(round*64 + ri*8 + s))
 					for i := 0; ; i++ {
 						select {
 						case <-stop:
@@ -270,16 +484,43 @@ func stressC12(d time.Duration, seed uint64) result {
 						k := r.Intn(3)
 						id := fmt.Sprintf("v%d", r.Intn(100))
 						var path, want string
-						switch r.Intn(4) {
-						case 0, 1:
+						var req *http.Request
+						switch r.Intn(7) {
+						case 0:
 							path, want = fmt.Sprintf("/stable/r%d/%s", k, id), fmt.Sprintf("/stable#%d", k)
+						case 1:
+							// the stable route with a regular expression
+							if r.Chance(1, 2) {
+								id = fmt.Sprint(r.Intn(1000))
+								path, want = "/stable/n/"+id, "/stable#num"
+							} else {
+								path, want = fmt.Sprintf("/stable/r%d/%s", k, id), fmt.Sprintf("/stable#%d", k)
+							}
 						case 2:
 							path = fmt.Sprintf("/dyn/r%d/%s", k%2, id)
 							want = fmt.Sprintf("/dyn#%d", k%2)
-						default:
+						case 3:
 							path = fmt.Sprintf("/tmp%d/r0/%s", k%2, id)
+						case 4:
+							// what the mutators are adding and removing right now, in the shapes that carry the
+							// fresh regular expressions: answered by a state that existed (200 or 404)
+							switch r.Intn(3) {
+							case 0:
+								path = fmt.Sprintf("/tmp%d/v%d/r0/%s", k%2, r.Intn(10), id)
+							case 1:
+								path = fmt.Sprintf("/tmp%d/%d/leaf", k%2, r.Intn(1000))
+							default:
+								path = fmt.Sprintf("/dyn/q%d/%s", k%2, id)
+							}
+						default:
+							// the untouched siblings of the negotiated service while further siblings are added
+							a := negotiatedAsk("/neg", k%negGroups, r.Intn(negotiatedKinds), id)
+							path, want, req = a.path, a.wantRoute, a.request()
+							count("request-to-untouched-sibling")
 						}
-						req := httptest.NewRequest("GET", path, nil)
+						if req == nil {
+							req = httptest.NewRequest("GET", path, nil)
+						}
 						if r.Chance(1, 10) {
 							// OPTIONS: answered by the filter with the methods routable at that URL right now
 							orec := httptest.NewRecorder()
@@ -322,7 +563,7 @@ func stressC12(d time.Duration, seed uint64) result {
 						switch {
 						case want != "" && (rec.Code != 200 || rec.Header().Get("X-Route") != want || rec.Body.String() != id):
 							fail("a request to a service and route that are not being changed was not answered as if nothing were changing",
-								fmt.Sprintf("%s router=%s: status %d route %q body %q", path, router, rec.Code, rec.Header().Get("X-Route"), rec.Body.String()))
+								fmt.Sprintf("%s %s %v router=%s: status %d route %q body %q, want 200 route %q body %q", req.Method, path, req.Header, router, rec.Code, rec.Header().Get("X-Route"), rec.Body.String(), want, id))
 						case want == "" && rec.Code != 200 && rec.Code != 404:
 							fail("a request to a service being added/removed was answered by no registration state", fmt.Sprintf("%s: status %d", path, rec.Code))
 						}
@@ -353,6 +594,18 @@ type ledger struct {
 	inner restful.CompressorProvider
 	out   map[interface{}]bool
 	bad   string
+	// a released compressor belongs to the provider: the ledger points it at this sink before it hands
+	// it back (whoever acquires it next points it at the own response first, as the framework does), so
+	// every byte that is still pushed through it between its release and its next acquisition arrives
+	// here: a use after release (a late Flush or Close of a response writer that was closed before)
+	trap trapSink
+}
+
+type trapSink struct{ n int64 }
+
+func (t *trapSink) Write(b []byte) (int, error) {
+	atomic.AddInt64(&t.n, int64(len(b)))
+	return len(b), nil
 }
 
 func (l *ledger) take(o interface{}) {
@@ -378,7 +631,11 @@ func (l *ledger) AcquireGzipWriter() *gzip.Writer {
 	l.take(w)
 	return w
 }
-func (l *ledger) ReleaseGzipWriter(w *gzip.Writer) { l.give(w); l.inner.ReleaseGzipWriter(w) }
+func (l *ledger) ReleaseGzipWriter(w *gzip.Writer) {
+	l.give(w)
+	w.Reset(&l.trap)
+	l.inner.ReleaseGzipWriter(w)
+}
 func (l *ledger) AcquireGzipReader() *gzip.Reader {
 	r := l.inner.AcquireGzipReader()
 	l.take(r)
@@ -390,7 +647,11 @@ func (l *ledger) AcquireZlibWriter() *zlib.Writer {
 	l.take(w)
 	return w
 }
-func (l *ledger) ReleaseZlibWriter(w *zlib.Writer) { l.give(w); l.inner.ReleaseZlibWriter(w) }
+func (l *ledger) ReleaseZlibWriter(w *zlib.Writer) {
+	l.give(w)
+	w.Reset(&l.trap)
+	l.inner.ReleaseZlibWriter(w)
+}
 
 // stressC13: many concurrent encoded responses and gzip request bodies over providers of capacity
 // 0, 1, 2 and the sync.Pool provider; every response must decode to its own payload; nobody may block.
@@ -480,7 +741,7 @@ func stressC13(d time.Duration, seed uint64) result {
 	}
 	deadline := time.Now().Add(d)
 	for round := 0; round == 0 || time.Now().Before(deadline); round++ {
-		for _, prov := range []string{"bounded0", "bounded1", "bounded2", "pool"} {
+		for pi, prov := range []string{"bounded0", "bounded1", "bounded2", "pool"} {
 			var inner restful.CompressorProvider
 			switch prov {
 			case "bounded0":
@@ -498,7 +759,48 @@ func stressC13(d time.Duration, seed uint64) result {
 			c.EnableContentEncoding(true)
 			c.DoNotRecover(false)
 			ws := new(restful.WebService).Path("/e")
+			// lateFlush runs a Flush that a handler kept from a response which has been closed since (a
+			// streaming handler's ticker firing once more, a deferred flush after the request ended).  The
+			// closed writer's compressor was released then: nothing may come out of it any more — not
+			// into the response `open` that is being written right now (it may own that compressor by
+			// now), and not through the released compressor (the ledger's trap).
+			lateFlush := func(f func(), open *httptest.ResponseRecorder, when string) string {
+				t0 := atomic.LoadInt64(&led.trap.n)
+				n0 := 0
+				if open != nil {
+					n0 = open.Body.Len()
+				}
+				f()
+				count("late-flush-of-a-closed-response:" + when)
+				if open != nil {
+					if n1 := open.Body.Len(); n1 != n0 {
+						return fmt.Sprintf("a Flush on a response writer that had been closed put %d bytes into another response, which was still open (%s): the closed writer used a compressor after its release", n1-n0, when)
+					}
+				}
+				if t1 := atomic.LoadInt64(&led.trap.n); t1 != t0 {
+					return fmt.Sprintf("a Flush on a response writer that had been closed pushed %d bytes through a compressor that had already been released (%s)", t1-t0, when)
+				}
+				return ""
+			}
 			ws.Route(ws.POST("/{n}").To(func(req *restful.Request, resp *restful.Response) {
+				sl, _ := req.Request.Context().Value(slotKey{}).(*c13slot)
+				if sl == nil {
+					sl = &c13slot{}
+				}
+				switch sl.retain {
+				case 1:
+					sl.kept = resp.Flush
+				case 2:
+					if f, ok := resp.ResponseWriter.(http.Flusher); ok {
+						sl.kept = f.Flush
+					}
+				}
+				if f := sl.before; f != nil {
+					sl.before = nil
+					if msg := lateFlush(f, sl.rec, "inside the next request's handler, before it wrote"); msg != "" && sl.bad == "" {
+						sl.bad = msg
+					}
+				}
 				var v map[string]string
 				if req.Request.Header.Get("Content-Encoding") != "" {
 					if err := req.ReadEntity(&v); err != nil {
@@ -510,7 +812,21 @@ func stressC13(d time.Duration, seed uint64) result {
 					resp.Write([]byte("partial"))
 					panic("boom")
 				}
-				resp.Write([]byte(strings.Repeat(req.PathParameter("n")+";", 200)))
+				payload := []byte(strings.Repeat(req.PathParameter("n")+";", 200))
+				if sl.streamed {
+					// a streaming handler: Flush while the response is open, between two writes
+					resp.Write(payload[:len(payload)/3])
+					resp.Flush()
+					resp.Write(payload[len(payload)/3:])
+				} else {
+					resp.Write(payload)
+				}
+				if f := sl.after; f != nil {
+					sl.after = nil
+					if msg := lateFlush(f, sl.rec, "inside the next request's handler, after it wrote"); msg != "" && sl.bad == "" {
+						sl.bad = msg
+					}
+				}
 			}))
 			c.Add(ws)
 			var wg sync.WaitGroup
@@ -519,8 +835,10 @@ func stressC13(d time.Duration, seed uint64) result {
 				wg.Add(1)
 				go func(g int) {
 					defer wg.Done()
-					r := rng.New(seed*131 + uint64(round*100+g))
-					for i := 0; i < 60; i++ {
+					r := rng.New(seed * 131).Fork(uint64(round*100*4 + pi*100 + g))
+					const perGoroutine = 60
+					var pendingBefore, pendingAfter func()
+					for i := 0; i < perGoroutine; i++ {
 						n := fmt.Sprintf("g%d_%d", g, i)
 						if r.Chance(1, 10) {
 							n = "panic"
@@ -551,14 +869,63 @@ func stressC13(d time.Duration, seed uint64) result {
 						enc := []string{"gzip", "deflate"}[r.Intn(2)]
 						req.Header.Set("Accept-Encoding", enc)
 						rec := httptest.NewRecorder()
-						if r.Chance(1, 8) {
+						// what the handler finds in the request's context: whether it keeps a Flush of its
+						// response for later (1 in 4), whether it streams (Flush between two writes), and the
+						// Flush kept from an EARLIER response of this goroutine, closed since, to be called now
+						sl := &c13slot{rec: rec, before: pendingBefore, after: pendingAfter, streamed: r.Chance(1, 5)}
+						pendingBefore, pendingAfter = nil, nil
+						if r.Chance(1, 4) {
+							sl.retain = 1 + r.Intn(2)
+						}
+						req = req.WithContext(context.WithValue(req.Context(), slotKey{}, sl))
+						var w http.ResponseWriter = rec
+						failing := r.Chance(1, 8)
+						if failing {
 							// a client that went away: the underlying writer fails; the framework closes the
 							// compressing writer twice on this path (dispatch and ServeHTTP) — still one release
-							c.ServeHTTP(&failingWriter{rec: rec, after: r.Intn(40)}, req)
+							w = &failingWriter{rec: rec, after: r.Intn(40)}
+						}
+						if r.Chance(1, 4) {
+							c.Dispatch(w, req)
+							count("entry:Dispatch")
+						} else {
+							c.ServeHTTP(w, req)
+							count("entry:ServeHTTP")
+						}
+						// the response is closed now.  A kept Flush the handler did not get to (it returned early
+						// or panicked) and, for one in three, the Flush kept from this very response come now;
+						// the others wait for the next request of this goroutine
+						late := []func(){sl.before, sl.after}
+						if sl.kept != nil {
+							count("handler-kept-a-flush:" + prov)
+							switch r.Intn(3) {
+							case 0:
+								late = append(late, sl.kept)
+							case 1:
+								pendingBefore = sl.kept
+							default:
+								pendingAfter = sl.kept
+							}
+						}
+						if i == perGoroutine-1 {
+							late = append(late, pendingBefore, pendingAfter)
+						}
+						for _, f := range late {
+							if f == nil {
+								continue
+							}
+							if msg := lateFlush(f, nil, "after the request had ended"); msg != "" && sl.bad == "" {
+								sl.bad = msg
+							}
+						}
+						if sl.bad != "" {
+							bad.CompareAndSwap(nil, sl.bad+fmt.Sprintf(" (request %s, %s)", n, enc))
+							return
+						}
+						if failing {
 							count("request-with-failing-writer:" + prov)
 							continue
 						}
-						c.ServeHTTP(rec, req)
 						count("request:" + prov)
 						var rd io.Reader
 						var err error
@@ -602,10 +969,25 @@ func stressC13(d time.Duration, seed uint64) result {
 			if outstanding != 0 {
 				return result{OK: false, What: fmt.Sprintf("%d acquired objects were never released", outstanding), Detail: "provider=" + prov}
 			}
+			if n := atomic.LoadInt64(&led.trap.n); n != 0 {
+				return result{OK: false, What: fmt.Sprintf("%d bytes were written through compressors between their release and their next acquisition (use after release)", n), Detail: "provider=" + prov}
+			}
 		}
 	}
 	return result{OK: true}
 }
+
+// c13slot travels in the request's context to the handler of the C13 load and back.
+type c13slot struct {
+	rec           *httptest.ResponseRecorder // behind the response that is being served
+	retain        int                        // the handler keeps 1: resp.Flush, 2: the response writer's http.Flusher
+	kept          func()
+	streamed      bool
+	before, after func() // Flush kept from an earlier response of the same goroutine, closed since
+	bad           string
+}
+
+type slotKey struct{}
 
 // failingWriter accepts `after` bytes and then fails every Write, like a broken connection.
 type failingWriter struct {
